@@ -440,6 +440,40 @@ pub fn jobs(tier: Tier, full: bool) -> Vec<Job> {
         }
         v.push(Job { name: "J5n/".into(), cfg: TreeCfg { scripting: false, ..Default::default() }, prefix: vec![], sigma: sig5.clone(), depth: 2 });
     }
+    // J6: deep prepared structures (non-initial states that a depth-bounded search from the start
+    // cannot reach): long formatting chains, outer/inner adoption-agency loop limits, Noah's ark
+    // with attribute permutations, markers, foster-parented formatting
+    {
+        let sig6: Vec<&'static str> = vec![
+            "<a>", "<b>", "<i>", "<p>", "<div>", "</a>", "</b>", "</i>", "</p>", "</div>", "x", "<table>", "<td>", "<b id=1>", "<b id=2>", "<b class=c id=1>", "</u>", "</em>", "<li>", "</table>",
+        ];
+        let preps: Vec<Vec<&'static str>> = vec![
+            vec!["<b>", "<i>", "<u>", "<s>", "<em>"],
+            vec!["<b>", "<i>", "<u>", "<s>", "<em>", "<div>"],
+            vec!["<a>", "<b>", "<i>", "<u>", "<s>", "<em>", "<strong>", "<p>"],
+            vec!["<a>", "<div>", "<div>", "<div>", "<div>", "<div>", "<div>", "<div>", "<div>", "<div>"],
+            vec!["<b>", "<p>", "<p>", "<div>", "<div>", "<div>", "<div>", "<div>", "<div>", "<div>"],
+            vec!["<b>", "<b>", "<b>"],
+            vec!["<b id=1>", "<b id=1>", "<b id=1>"],
+            vec!["<b id=1 class=c>", "<b class=c id=1>", "<b id=1 class=c>"],
+            vec!["<b id=1>", "<b id=2>", "<b id=1>", "<b id=1>"],
+            vec!["<table>", "<b>", "<i>", "<u>"],
+            vec!["<p>", "<b>", "<i>", "<u>", "</p>"],
+            vec!["<b>", "<table>", "<td>", "<i>", "<u>"],
+            vec!["<b>", "<button>", "<i>", "<p>"],
+            vec!["<em>", "<object>", "<b>", "<div>", "<i>"],
+            vec!["<ul>", "<li>", "<b>", "<ul>", "<li>", "<i>", "<p>"],
+            vec!["<dl>", "<dd>", "<div>", "<dt>", "<b>", "<p>"],
+            vec!["<table>", "<tr>", "<td>", "<table>", "<tr>", "<td>", "<b>"],
+            vec!["<svg>", "<foreignObject>", "<b>", "<svg>", "<desc>", "<i>", "<p>"],
+            vec!["<template>", "<table>", "<template>", "<tr>", "<td>", "<b>"],
+            vec!["<h1>", "<b>", "<h2>", "<i>", "<p>", "<span>"],
+        ];
+        let depth = tier.pick(3, 4);
+        for w in preps {
+            v.push(Job { name: format!("J6/{}", w.concat()), cfg: TreeCfg::default(), prefix: w, sigma: sig6.clone(), depth });
+        }
+    }
     for f in fragment_contexts() {
         if !full && (f.local == "select" || f.local == "option") {
             continue;
